@@ -1,0 +1,37 @@
+//go:build verif
+
+// Contracts for package phyloxml, checked by /verif (govc). Comments only.
+
+package phyloxml
+
+//@ func (*io/phyloxml.Parser).Parse
+//@   requires p != nil
+//@   allocates PhyloXML, []Phylogeny, []Clade, iface, []string
+//@   assigns nothing
+//@   ensures [document_or_error] err == nil ==> px != nil
+
+//@ func io/phyloxml.phylogenyToTree
+//@   flag treeop
+//@   requires p != nil && t != nil
+
+// ---------------------------------------------------------------------------
+// First-tree accessor vs. iterator (property C13): whenever the document holds
+// a phylogeny, FirstTree returns a tree (built by the same constructor call,
+// on the first phylogeny, as the first callback of IterateTrees)
+// ---------------------------------------------------------------------------
+
+//@ func (*io/phyloxml.PhyloXML).FirstTree
+//@   flag noframe
+//@   requires p != nil
+//@   ensures [a_document_with_a_phylogeny_yields_a_tree] len(p.Phylogenies) > 0 ==> t != nil
+//@   ensures [an_empty_document_yields_none] len(p.Phylogenies) == 0 ==> t == nil && err == nil
+//@   call io/phyloxml.phylogenyToTree [built_into_a_new_tree] a1 != nil && a0 != nil
+
+// calls it(tree, err) once per phylogeny in file order (the callback's effects are havocked by the engine)
+//@ func (*io/phyloxml.PhyloXML).IterateTrees
+//@   flag noframe
+//@   requires p != nil
+//@   call io/phyloxml.phylogenyToTree [one_tree_per_phylogeny_in_document_order] a1 != nil && a0 != nil
+//@   loop 1
+//@     invariant [callback_called_once_per_phylogeny_so_far] ghost(fncalls_it) == lold(ghost(fncalls_it)) + rangeindex + 1
+//@   ensures [callback_called_once_per_phylogeny] ghost(fncalls_it) == old(ghost(fncalls_it)) + len(p.Phylogenies)
